@@ -3,13 +3,14 @@
 # project (FEMIO_VERIF_LEAN) so that concurrent runs do not disturb each other or the main build.  One verdict line per id.
 cd "$(dirname "$0")/.."
 jobs=$1; shift
-mkdir -p /root/work/parr
-for k in $(seq 1 $jobs); do rm -rf /root/work/parr/lean$k; cp -r lean /root/work/parr/lean$k; done
+export TAG=-$$     # one private directory per invocation: concurrent invocations must not share slots
+mkdir -p /root/work/parr$TAG
+for k in $(seq 1 $jobs); do rm -rf /root/work/parr$TAG/lean$k; cp -r lean /root/work/parr$TAG/lean$k; done
 printf '%s\n' "$@" | xargs -P $jobs -I{} bash -c '
   for k in $(seq 1 '$jobs'); do
-    if mkdir /root/work/parr/lock$k 2>/dev/null; then
-      FEMIO_VERIF_LEAN=/root/work/parr/lean$k python3 tools/run_refactor.py {} 2>&1 | grep -E "^C[0-9]{2}-r[0-9]+ " ; rmdir /root/work/parr/lock$k; exit 0
+    if mkdir /root/work/parr$TAG/lock$k 2>/dev/null; then
+      FEMIO_VERIF_LEAN=/root/work/parr$TAG/lean$k python3 tools/run_refactor.py {} 2>&1 | grep -E "^C[0-9]{2}-r[0-9]+ " ; rmdir /root/work/parr$TAG/lock$k; exit 0
     fi
   done
   echo "{} NO-SLOT"'
-rm -rf /root/work/parr
+rm -rf /root/work/parr$TAG
